@@ -50,7 +50,7 @@ def model_text(model, limit=60):
 
 
 def run_property(pid, tier="quick", seed=0, only=None, verbose=False, do_bounded=True, do_proof=True):
-    from . import verify, npmodel
+    from . import verify, npmodel, selfcheck, lemmas, loops, pybuiltins, interp, solve       # load the whole engine NOW (one consistent snapshot of the files)
     t0 = time.time()
     pidl = pid.lower()
     violations, knowns, undecided = [], [], []
